@@ -211,6 +211,13 @@ def life1(case, ctx):
                 info['violations'].append(
                     ('saved-state-differs-from-current',
                      f"{label}: storage[{blk.key}] = {snap[blk.key]!r}, get_state() = {cur!r}"))
+            elif name in ('fsm', 'tmr', 'iexp') and (
+                    snap[blk.key][0] != blk.state or not deep_eq(snap[blk.key][2], blk.sdata)):
+                # not only get_state() but the live internal state itself
+                info['violations'].append(
+                    ('saved-state-differs-from-current',
+                     f"{label}: storage[{blk.key}] = {snap[blk.key]!r}, the block is in state "
+                     f"{blk.state!r} with sdata {blk.sdata!r}"))
         return snap
 
     def take_point(blocks, label, disabled, kind):
